@@ -27,6 +27,7 @@ EXPLANATION = (
     ' Round 4: R06.7 (= R01.11) rules for parametrised ops mention their op instance; R06.8 constant sizes in the find_domain rule of the cast op only for dtypes with that many values; R06.9 (= R04.4) a distributed substitution reaches every operand that mentions a key.'
     " Round 6: R06.10 batch/event boundary computed from the array's own tensor; R06.11 axis labels in the order of the tensor's own inputs; R06.12 slice-length expressions equal len(range(start, stop, step)) on a grid; R06.13 Number/Tensor branches of an eager_subs agree in data and dtype."
     ' R06.20 (exhaustiveness): every unary op that find_domain types by the generic UnaryOp rule (same shape, same dtype) is elementwise - its array implementations call no numpy function of a frozen table of shape-changing / dtype-changing calls (expand_dims, transpose, swapaxes, broadcast_to, diagonal, argmax, argmin, arange, zeros, full, eye, randn, squeeze, isnan ...; `return x.reshape(..)` style methods); implementations outside both tables are unresolved. R06.3 also covers Number.eager_unary / Tensor.eager_unary.'
+    ' R06.21: every binary op typed by the generic BinaryOp rule (operands of one dtype -> that dtype) whose default implementation is a Python operator maps [0, n) x [0, n) into [0, n) for n = 1..4, by the semantics of that Python operator.'
 )
 ASSUMPTIONS = [
     "values/shapes actually returned by op implementations on arrays are not decided (runtime)",
@@ -223,6 +224,8 @@ def run(prog: Program, col: Collector, tier: str, refs: Optional[Refs] = None, c
     shapes.r_shape_only_ops_keep_dtype(prog, col, refs, cat, "R06.19")
     col.rule("R06.20", "a unary op whose array implementation changes the shape or the dtype is not typed by the generic (same shape, same dtype) rule", floor=30)
     _typing_rules_exhaustive(prog, col, refs, cat)
+    col.rule("R06.21", "a binary op that the generic rule types Bint[n] x Bint[n] -> Bint[n] is closed on [0, n)", floor=4)
+    _generic_binary_closed(prog, col, refs, cat)
     col.rule("R06.18", "a variable bound in one rebuilt element of a tuple of terms is tested against the elements that are copied (else it stays an undeclared input)", floor=1)
     from . import c05 as _c05
     _c05._binder_in_one_element(prog, col, refs, cat)
@@ -553,6 +556,63 @@ DTYPE_CHANGING = {"np.isnan", "np.isfinite", "np.isinf", "np.argmax", "np.argmin
 SHAPE_KEEPING = {"np.flip", "np.clip", "np.reciprocal", "np.sqrt", "np.full_like", "np.linalg.cholesky", "np.linalg.inv", "np.finfo", "np.exp", "np.log", "np.abs", "np.sign"}
 
 
+def _generic_binary_closed(prog: Program, col: Collector, refs: Refs, cat: Catalogue):
+    """The find_domain rule for BinaryOp returns Array[lhs.dtype, ...] for operands of one dtype.  For bounded integers that claims the op
+    maps [0, n) x [0, n) into [0, n).  For ops whose default implementation is a Python operator the claim is a finite question per n; it
+    is evaluated here for n = 1..4 with the operator's own semantics (the analyser's table of Python operators, nothing of funsor runs)."""
+    import itertools
+    import operator
+    PY = {"operator.sub": operator.sub, "operator.pow": operator.pow, "operator.truediv": operator.truediv, "operator.lshift": operator.lshift, "operator.rshift": operator.rshift,
+          "operator.add": operator.add, "operator.mul": operator.mul, "operator.floordiv": operator.floordiv, "operator.mod": operator.mod}
+    fd = [r for r in cat.registrations if r.registry == "funsor.domains.find_domain"]
+    covered = set()
+    generic = None
+    for r in fd:
+        ref = cat.op_class_ref(refs.resolve(r.pattern[0])) if r.pattern and isinstance(r.pattern[0], (ast.Name, ast.Attribute)) else None
+        if ref:
+            covered.add(ref)
+            if ref == "abs:funsor.ops.op.BinaryOp":
+                generic = r
+    if generic is None or generic.target is None:
+        col.unresolved("funsor.domains::find_domain", "no rule registered for BinaryOp", "funsor/domains.py")
+        return
+    # the generic rule: same dtype on both sides -> that dtype (read off its return: Array[<lhs>.dtype, ...])
+    g = generic.target
+    lhs_p = g.positional[1] if len(g.positional) >= 3 else None
+    same_dtype = any(isinstance(r_, ast.Return) and r_.value is not None and norm(r_.value).replace(" ", "").startswith(f"Array[{lhs_p}.dtype,") for r_ in ast.walk(g.node))
+    if not same_dtype:
+        col.unresolved(f"{g.fq}", "the rule for BinaryOp no longer returns Array[lhs.dtype, ...]; the clause does not apply as written", g.loc())
+        return
+    for fq, o in sorted(cat.ops.items()):
+        anc = cat.op_ancestors(fq)
+        if "funsor.ops.op.BinaryOp" not in anc:
+            continue
+        chain = ["op:" + fq] + [("op:" + a) if a in cat.ops else ("abs:" + a) for a in anc]
+        if next((x for x in chain if x in covered), None) != "abs:funsor.ops.op.BinaryOp":
+            continue
+        construct = f"funsor.domains::find_domain::{o.var} on bounded integers"
+        loc = o.module.loc(o.node)
+        sem = PY.get(o.impl_ext or "")
+        if sem is None:
+            col.note(construct, "implementation is not a Python operator; bounded-integer closure not evaluated", loc)
+            continue
+        witness = None
+        for n in range(1, 5):
+            for a, b in itertools.product(range(n), repeat=2):
+                try:
+                    v = sem(a, b)
+                except ZeroDivisionError:
+                    continue
+                if not (float(v).is_integer() and 0 <= v < n):
+                    witness = witness or (n, a, b, v)
+        if witness is None:
+            col.ok(construct, "closed on [0, n) for n = 1..4", loc)
+        else:
+            n, a, b, v = witness
+            col.violation(construct, f"`ops.{o.name}` has no typing rule of its own, so Bint[{n}] {o.name} Bint[{n}] is declared Bint[{n}] by the generic binary rule, but "
+                          f"{a} {o.name} {b} = {v} lies outside [0, {n}): the declared bounded-integer output does not contain the values the op returns", loc)
+
+
 def _typing_rules_exhaustive(prog: Program, col: Collector, refs: Refs, cat: Catalogue):
     """find_domain dispatches on the op's class; an op without a rule of its own (or of an intermediate class) is typed by the rule for
     UnaryOp, which declares the operand's shape and dtype.  That is right for elementwise maps only."""
@@ -592,7 +652,7 @@ def _typing_rules_exhaustive(prog: Program, col: Collector, refs: Refs, cat: Cat
                 if isinstance(r_, ast.Return) and isinstance(r_.value, ast.Call) and isinstance(r_.value.func, ast.Attribute) and isinstance(r_.value.func.value, ast.Name)
                 and r_.value.func.value.id == im.args.args[0].arg}  # `return x.reshape(shape)`: the method's result IS the op's result
         calls |= {"np." + m for m in meth & {"reshape", "transpose", "swapaxes", "squeeze", "diagonal", "argmax", "argmin", "flatten", "ravel"}}
-        construct = f"funsor.domains::find_domain::{o.name}"
+        construct = f"funsor.domains::find_domain::{o.var}"
         loc = o.module.loc(o.node)
         sc, dc = sorted(calls & (SHAPE_CHANGING | {"np.reshape", "np.flatten", "np.ravel"})), sorted(calls & DTYPE_CHANGING)
         if sc or dc:
